@@ -26,6 +26,12 @@ const WDT_VERSIONS: [(&str, WowVersion); 10] = [
 ];
 
 fn wdt_build(vi: usize, flags: u32, tiles: &[(usize, usize)], wmo: bool, maid: bool) -> Vec<u8> {
+    wdt_build_n(vi, flags, tiles, wmo as usize, maid)
+}
+
+/// `nwmo`: number of WMO file names / MODF placements (0 = none)
+fn wdt_build_n(vi: usize, flags: u32, tiles: &[(usize, usize)], nwmo: usize, maid: bool) -> Vec<u8> {
+    let wmo = nwmo > 0;
     let v = WDT_VERSIONS[vi].1;
     let mut w = WdtFile::new(v);
     w.mphd.flags = MphdFlags::from_bits_truncate(flags);
@@ -52,7 +58,6 @@ fn wdt_build(vi: usize, flags: u32, tiles: &[(usize, usize)], wmo: bool, maid: b
     if wmo {
         let mut c = MwmoChunk::new();
         c.add_filename("World\\wmo\\Dungeon\\Test\\Test.wmo".to_string());
-        w.mwmo = Some(c);
         let mut m = ModfChunk::new();
         m.add_entry(ModfEntry {
             id: 0,
@@ -66,6 +71,22 @@ fn wdt_build(vi: usize, flags: u32, tiles: &[(usize, usize)], wmo: bool, maid: b
             name_set: 2,
             scale: 1024,
         });
+        for k in 1..nwmo {
+            c.add_filename(format!("World\\wmo\\Dungeon\\Test\\Extra{k}.wmo"));
+            m.add_entry(ModfEntry {
+                id: k as u32,
+                unique_id: 0xABCD_0001 + k as u32,
+                position: [k as f32, 2.0, 3.0],
+                rotation: [0.0, 45.0 * k as f32, 0.0],
+                lower_bounds: [-1.0, -2.0, -3.0],
+                upper_bounds: [1.0, 2.0, 3.0],
+                flags: k as u16,
+                doodad_set: 0,
+                name_set: 0,
+                scale: 512,
+            });
+        }
+        w.mwmo = Some(c);
         w.modf = Some(m);
     } else if vi < 3 {
         // pre-Cataclysm terrain maps carry an empty MWMO
@@ -92,7 +113,24 @@ impl Format for Wdt {
             ("bfa_maid".into(), wdt_build(7, 0x200, &t3, false, true), 7),
             ("bfa_wmo_only_maid".into(), wdt_build(7, 0x1 | 0x200, &[(1, 1)], true, true), 7),
         ];
-        defs.into_iter().map(|(n, b, aux)| chunked_seed("wdt", &n, b, aux, &[], 32, 64)).collect()
+        let mut out: Vec<Seed> = defs.into_iter().map(|(n, b, aux)| chunked_seed("wdt", &n, b, aux, &[], 32, 64)).collect();
+        if crate::thorough() {
+            // the client versions no primary seed is written for, and larger element counts
+            let all: Vec<(usize, usize)> = (0..64).flat_map(|y| (0..64).map(move |x| (x, y))).collect();
+            let more: Vec<(&str, Vec<u8>, u32)> = vec![
+                ("tbc_wmo_only_3modf", wdt_build_n(1, 0x1, &[], 3, false), 1),
+                ("mop_terrain_all_4096_tiles", wdt_build_n(4, 0x2 | 0x4 | 0x8 | 0x40 | 0x80, &all, 0, false), 4),
+                ("wod_terrain_1tile", wdt_build_n(5, 0x40 | 0x80, &[(32, 32)], 0, false), 5),
+                ("shadowlands_terrain_nomaid", wdt_build_n(8, 0x40 | 0x80 | 0x100, &t3, 0, false), 8),
+                ("dragonflight_maid_3tiles", wdt_build_n(9, 0x200 | 0x40, &t3, 0, true), 9),
+            ];
+            for (n, b, aux) in more {
+                let mut s = chunked_seed("wdt", n, b, aux, &[], 32, 64);
+                s.tier2 = true;
+                out.push(s);
+            }
+        }
+        out
     }
     fn run(&self, seed: &Seed, input: &[u8], rec: &mut Recorder, _scratch: &std::path::Path) {
         // the reader is parameterised by the expected client version: the seed's own and the two ends
@@ -186,7 +224,21 @@ impl Format for Wdl {
             ("mop_3tiles_holes".into(), wdl_build(3, &t3, true, true, false), 3),
             ("legion_3tiles_ml".into(), wdl_build(5, &t3, true, false, true), 5),
         ];
-        defs.into_iter().map(|(n, b, aux)| chunked_seed("wdl", &n, b, aux, &[], 48, 64)).collect()
+        let mut out: Vec<Seed> = defs.into_iter().map(|(n, b, aux)| chunked_seed("wdl", &n, b, aux, &[], 48, 64)).collect();
+        if crate::thorough() {
+            let t9: Vec<(u32, u32)> = (0..9).map(|k| (k * 7 % 64, k * 11 % 64)).collect();
+            let more: Vec<(&str, Vec<u8>, u32)> = vec![
+                ("wod_3tiles_holes_wmo", wdl_build(4, &t3, true, true, false), 4),
+                ("legion_3tiles_ml_wmo", wdl_build(5, &t3, true, true, true), 5),
+                ("cata_9tiles_holes_wmo", wdl_build(2, &t9, true, true, false), 2),
+            ];
+            for (n, b, aux) in more {
+                let mut s = chunked_seed("wdl", n, b, aux, &[], 48, 64);
+                s.tier2 = true;
+                out.push(s);
+            }
+        }
+        out
     }
     fn run(&self, seed: &Seed, input: &[u8], rec: &mut Recorder, _scratch: &std::path::Path) {
         let mut vs = vec![usize::MAX, seed.aux as usize, 0, WDL_VERSIONS.len() - 1];
